@@ -377,11 +377,23 @@ def cd_setup(ctx):
     # precondition: path.absolute is an absolute local path, so it and its dirname are non-empty
     ctx.assume(z3.Length(absolute) > 0)
     ctx.assume(z3.Length(dirname(absolute)) > 0)
+    def chdir_model(c, a, k):
+        d = lift(a[0]) if isinstance(a[0], str) or is_z3(a[0]) else a[0]
+        if not (is_z3(d) and d.sort() == S):
+            raise PyRaise(ExcVal("TypeError", origin="os.chdir(not a path)"))  # os.chdir(True): what CPython answers
+        c.ghost["cwd"] = d
+        c.event("chdir", d)
+        return None
+
     calls.update({
         "os.getcwd": lambda c, a, k: c.ghost["cwd"],
-        "os.chdir": lambda c, a, k: (c.ghost.__setitem__("cwd", lift(a[0])), c.event("chdir", lift(a[0])))[0] and None,
+        "os.chdir": chdir_model,
         "os.path.abspath": lambda c, a, k: abspath(lift(a[0])),
         "os.path.dirname": lambda c, a, k: dirname(lift(a[0])),
+        # sibling functions the body does not use today: an arbitrary function of the text (following symbolic links gives another location in general),
+        # so that a change that resolves links before entering the directory is refuted instead of leaving the unit undecided
+        "os.path.realpath": lambda c, a, k: realpath(lift(a[0])),
+        "os.path.normpath": lambda c, a, k: z3.Function("os.path.normpath", S, S)(lift(a[0])),
     })
 
     def at_yield(ctx_, interp, value, env):
